@@ -427,7 +427,7 @@ std::vector<EditStep> genEdit(Choices& c, const ref::Pos& p) {
     return ed;
 }
 
-Case decodeSeq(Choices& c, bool promoRace, int maxSteps) {
+Case decodeSeq(Choices& c, bool promoRace, int maxSteps, int maxPollute) {
     Case k;
     int profile;
     if (promoRace) { k.fen = PAWN_RACE; profile = gen::PAWNS; }
@@ -510,7 +510,7 @@ Case decodeSeq(Choices& c, bool promoRace, int maxSteps) {
             Op& o = push(POLLUTE);
             o.a = c.pick(CORPUS);
             int w = c.pick(200);
-            o.b = w == 0 ? 10000 : w < 5 ? c.range(500, 2000) : c.range(1, 60);
+            o.b = w == 0 ? maxPollute : w < 5 ? std::min(maxPollute, c.range(500, 2000)) : c.range(1, 60);
         }
         maybeEval();
     }
@@ -1213,9 +1213,11 @@ int main(int argc, char** argv) {
     const int maxSteps = (int)a.num("steps", 220);
     const long nSeq = a.num("seq", n), nPromo = a.num("promo", n / 5), nSym = a.num("sym", n * 4), nSearch = a.num("search", n / 4);
     const int maxNodes = (int)a.num("nodes", 3000);
+    const int maxPollute = (int)a.num("max-pollute", 10000);
+    vh::ctx().shrinkBudget = a.num("shrink-budget", 300);
     corpus();
-    vh::runProp("seq", nSeq, 10.0, [&](Choices& c) { rn.run("seq", decodeSeq(c, false, maxSteps)); });
-    vh::runProp("promo", nPromo, 10.0, [&](Choices& c) { rn.run("promo", decodeSeq(c, true, maxSteps)); });
+    vh::runProp("seq", nSeq, 10.0, [&](Choices& c) { rn.run("seq", decodeSeq(c, false, maxSteps, maxPollute)); });
+    vh::runProp("promo", nPromo, 10.0, [&](Choices& c) { rn.run("promo", decodeSeq(c, true, maxSteps, maxPollute)); });
     vh::runProp("sym", nSym, 2.0, [&](Choices& c) {
         SymCase s;
         if (!decodeSym(c, s)) { st.discarded++; return; }
